@@ -17,7 +17,7 @@ from typing import List, Optional, Tuple
 
 from ..astq import assignments, calls, kwarg, params, stmts
 from ..callgraph import fkey
-from ..cfg import CFG, cond_atoms, flatten_conj
+from ..cfg import CFG, cond_atoms, flatten_conj, path_conditions
 from ..regexlang import MAXREPEAT, sre_parse
 from ..report import Check
 from ..source import AnalysisError, Project, ancestors, assign_targets, body_walk, dotted, enclosing_stmt, last_attr, norm, parent, short
@@ -45,6 +45,7 @@ def run(chk: Check, proj: Project) -> None:
     s11_string_body_language(chk, proj)
     s13_repaired_token_keeps_its_line(chk, proj)
     s15_source_not_rebound(chk, proj, m, f)
+    s17_handover_depends_on_the_token_alone(chk, proj, m, f)
     from . import C12
     from . import C07 as _C07
     from .common import world as _world
@@ -286,6 +287,27 @@ def s10_same_as_django(chk: Check, proj: Project, m, f) -> None:
     chk.ob("S10", "util.template_parser:_detailed_tag_parser:contents-stripped-as-in-django", dm.loc(strips[0]) if strips else dm.loc(tok[0]), ok,
            "the contents are stripped with the no-argument str.strip(), as Django's Lexer.create_token does" if ok else
            f"the contents are stripped with `{short(strips[0]) if strips else 'nothing'}`, Django strips with `.strip()` (all Unicode whitespace): a quoted tag with a non-breaking space / U+3000 next to a delimiter keeps it in its contents, which then differ from the span without delimiters and from stock Django's token")
+
+
+def s17_handover_depends_on_the_token_alone(chk: Check, proj: Project, m, f) -> None:
+    chk.rule("S17", "whether a tag is handed to the quote-aware scanner is decided by THAT token alone (it is a block tag and contains a quote): no loop-carried state ('we are inside {% comment %}', 'nothing interesting follows') switches the hand-over off - Django's own lexer has no such state either, and a quoted tag that is skipped is cut at a `%}` inside its string wherever it stands")
+    # the hand-over point: the `break` that leaves the loop over the stock lexer's tokens with the token to be repaired
+    loop = next((a for a in ast.walk(f) if isinstance(a, ast.For) and isinstance(a.target, ast.Name) and any(isinstance(b, ast.Break) for b in ast.walk(a))), None)
+    brk = next((b for b in ast.walk(loop) if isinstance(b, ast.Break)), None) if loop is not None else None
+    if loop is None or brk is None:
+        chk.undecided("S17", "util.template_parser:parse_template:hand-over-by-token-alone", m.loc(f), "the token loop with its hand-over `break` was not found")
+        return
+    tv = loop.target.id
+    carried = {t.id for st in ast.walk(f) if isinstance(st, (ast.Assign, ast.AugAssign, ast.AnnAssign)) for t in (st.targets if isinstance(st, ast.Assign) else [st.target]) if isinstance(t, ast.Name)} - {tv}
+    cs = [brk]
+    bad = []
+    for e, pol in flatten_conj(path_conditions(brk, upto=loop)):
+        used = {x.id for x in ast.walk(e) if isinstance(x, ast.Name)} & carried
+        if used:
+            bad.append((e, sorted(used)))
+    chk.ob("S17", "util.template_parser:parse_template:hand-over-by-token-alone", m.loc(bad[0][0]) if bad else m.loc(cs[0]), not bad,
+           f"the hand-over is decided from `{tv}` alone" if not bad else
+           f"`{short(bad[0][0])}` makes the hand-over depend on loop-carried state {bad[0][1]}: a quoted tag the flag excludes (e.g. between {{% comment %}} and {{% endcomment %}}) is tokenised by the stock lexer and cut at a `%}}` inside its string - with `\"%}}{{% endcomment %}}\"` in the string, text that should stay commented out is rendered")
 
 
 def s15_source_not_rebound(chk: Check, proj: Project, m, f) -> None:
